@@ -53,7 +53,7 @@ ASSUMPTIONS = [
     "streams never iterated and garbage-collection timing of abandoned generators are unspecified (the harness closes abandoned streams after taking its probes, before judging completion)",
     "a stream is consumed by one task from first item to end",
 ]
-MINIMUMS = {"monitor:items": 300, "monitor:body-state": 1000, "monitor:consumer-between": 500, "monitor:consumer-after": 300, "monitor:completion": 300, "creation_differs_from_consumption": 200, "consumed_while_cancelling": 60}
+MINIMUMS = {"monitor:items": 300, "monitor:body-state": 1000, "monitor:consumer-between": 500, "monitor:consumer-after": 300, "monitor:completion": 300, "creation_differs_from_consumption": 200, "consumed_while_cancelling": 60, "monitor:stream-owns-spawned": 100}
 JOBS = {"quick": 4, "thorough": 8}
 LEVEL_TEXT = (
     "The product of generator shapes (0-5 items, end/raise, yields inside a nested scope, metric records, an inner stream) x 4 consumption places x full/break/aclose modes is "
@@ -110,7 +110,15 @@ def run_case(R: Recorder, case: dict[str, Any], verbose: bool = False) -> None:
     async def numbers(W: World) -> Any:
         from hv.gen import metricsfam
 
+        async def worker() -> None:
+            await W.sched.gate("stream-worker")  # released only once every other task is blocked
+            log["worker_done"] = True
+
         for i in range(n_items):
+            if case.get("gen_spawn") and i == 0:
+                # a task spawned by the generator belongs to the stream's own scope: the stream does not end before it does
+                log["worker"] = ctx.spawn(worker)
+                R.count("streams_that_spawn")
             if records:
                 ctx.record(metricsfam.make("Mx", 1000 + i), merge=metricsfam.merge_fn("concat"))
 
@@ -195,6 +203,8 @@ def run_case(R: Recorder, case: dict[str, Any], verbose: bool = False) -> None:
             else:
                 log["terminal"] = ("abandoned", None)
         W.event("stream-finished", log["terminal"][0])
+        if log["terminal"][0] != "abandoned":
+            log["worker_done_at_finish"] = "worker" in log and log["worker"].done()  # finished or cancelled by its group
         kind = {"end": "after-end", "raise": "after-raise", "closed": "after-aclose", "abandoned": "after-break"}[log["terminal"][0]]
         take_probe(W, ("c", "after"))
         log["cons_probes"].append((("c", "after"), kind))
@@ -204,6 +214,7 @@ def run_case(R: Recorder, case: dict[str, Any], verbose: bool = False) -> None:
             except BaseException as exc:  # noqa: BLE001
                 W.event("late-aclose-raised", repr(exc))
             W.event("stream-finished", "closed-by-harness")
+            log["worker_done_at_finish"] = "worker" in log and log["worker"].done()
 
     def blk(spec: dict[str, Any], body: list[dict[str, Any]], **kw: Any) -> dict[str, Any]:
         return {"op": "block", **spec, "body": body, "catch": True, **kw}
@@ -351,6 +362,9 @@ def run_case(R: Recorder, case: dict[str, Any], verbose: bool = False) -> None:
             ok = i_comp is not None and i_comp > i_fin
             kind = "completion-never-fired" if i_comp is None else "completion-before-stream-end"
             R.monitor("completion", ok, where={**w0, "kind": kind, "scope": scope_name}, detail=f"'{scope_name}' completion at event {i_comp}, stream finished at event {i_fin}; events={[x for x in ev if x[0] in ('completion', 'stream-finished', 'exit', 'stream-created')]}", case=case)
+    if "worker" in log:
+        R.monitor("stream-owns-spawned", log.get("worker_done_at_finish") is True, where={**w0, "kind": "stream-ended-before-its-task"},
+                  detail=f"the generator spawned a task at its first item; when the stream had ended / was closed that task was {'done' if log.get('worker_done_at_finish') else 'still pending'}", case=case)
     R.monitor("loop-clean", not loop.errors, where={**w0, "kind": "loop-exception-handler-called"}, detail=f"{loop.errors}", case=case)
     if R.want_sample(place):
         R.sample({"case": case, "produced": produced, "received": received, "terminal": repr(terminal), "generator_probes": len(log["gen_probes"]), "consumer_probes": [c for _, c in log["cons_probes"]]}, kind=place)
@@ -363,12 +377,12 @@ def cases(tier: str, rng: random.Random):  # noqa: ANN201
                 modes = ["full"] + [f"break@{k}" for k in range(1, n + 1)] + [f"aclose@{k}" for k in range(1, n + 1)]
                 for mode in modes:
                     for nested_at in ([], [0], [n - 1] if n > 1 else []):
-                        yield {"items": n, "end": end, "nested_at": list(nested_at), "records": (n + len(mode)) % 2 == 0, "inner": False, "place": place, "mode": mode, "via": "plain" if n % 2 else "ctx", "falsy": (n + len(nested_at)) % 2 == 1, "deep": (n + len(mode) + len(nested_at)) % 3 == 0, "cancelling": (n + len(mode) + len(nested_at) + len(place)) % 4 == 0}
+                        yield {"items": n, "end": end, "nested_at": list(nested_at), "records": (n + len(mode)) % 2 == 0, "inner": False, "place": place, "mode": mode, "via": "plain" if n % 2 else "ctx", "falsy": (n + len(nested_at)) % 2 == 1, "deep": (n + len(mode) + len(nested_at)) % 3 == 0, "gen_spawn": n >= 1 and (n + len(mode) + len(place)) % 3 == 0, "cancelling": (n + len(mode) + len(nested_at) + len(place)) % 4 == 0}
     for _ in range({"quick": 300, "thorough": 20000}[tier]):
         n = rng.randint(1, 5)
         total = n + 2
         yield {"items": n, "end": rng.choice(["stop", "raise", "raise-cancelled"]), "nested_at": sorted(rng.sample(range(n), rng.randint(0, min(2, n)))), "records": rng.random() < 0.5, "inner": rng.random() < 0.4,
-               "falsy": rng.random() < 0.4, "deep": rng.random() < 0.4, "cancelling": rng.random() < 0.25, "place": rng.choice(["same", "sibling", "outside", "task"]), "mode": rng.choice(["full", "full", f"break@{rng.randint(1, total)}", f"aclose@{rng.randint(1, total)}"]), "via": rng.choice(["plain", "ctx"])}
+               "falsy": rng.random() < 0.4, "deep": rng.random() < 0.4, "cancelling": rng.random() < 0.25, "gen_spawn": rng.random() < 0.3, "place": rng.choice(["same", "sibling", "outside", "task"]), "mode": rng.choice(["full", "full", f"break@{rng.randint(1, total)}", f"aclose@{rng.randint(1, total)}"]), "via": rng.choice(["plain", "ctx"])}
 
 
 def run(R: Recorder, tier: str, seed: int, shard: int, nshards: int) -> None:
